@@ -41,17 +41,16 @@ static int probe_T(int p, char *why, size_t n)
 
 static void probe_prefix(int pre)
 {
-    if (pre == 0) cl_client_abort(0);
+    /* the client of the probed server aborts; what another client left open on ANOTHER server stays as it is - it must not keep this one
+     * from transferring any object */
+    if (pre == 0) cl_client_abort(PSRV);
     else {
         uint8_t d[2] = { 0x82, SDO_NODEID };
         w_rx(&Node, 0x000, 2, d);
         for (int s = 0; s < CO_SSDO_N; s++) { sdo_adopt(sdo_dirty_obj[s]); sdo_dirty_obj[s] = -1; sm_reset(&SM[s]); }
     }
-#if CO_SSDO_N > 1
-    if (pre == 0) cl_client_abort(1);
-#endif
     (void)CONodeGetErr(&Node);
-    sdo_content_reset();
+    sdo_content_force = 1; sdo_content_reset(); sdo_content_force = 0;
 }
 
 static void probe_init(void)
